@@ -37,6 +37,9 @@ pub struct Src {
   pub field: String,
   pub fk: &'static str,
   pub iv4: i64,
+  /// an interval that is no multiple of 1/4 (0.7, 0.1): only the relational clauses of C30 are
+  /// judged then (keys are compared as text)
+  pub iv_raw: Option<f64>,
 }
 
 #[derive(Clone, Debug)]
@@ -155,11 +158,11 @@ pub fn gen_comp(r: &mut StdRng, size: usize, subs: Subs) -> A {
   for i in 0..n {
     if chance(r, 1, 2) {
       let f = *pick(r, &KW_FIELDS);
-      sources.push(Src { terms: true, name: format!("k{i}"), field: f.to_string(), fk: "kw", iv4: 0 });
+      sources.push(Src { terms: true, name: format!("k{i}"), field: f.to_string(), fk: "kw", iv4: 0, iv_raw: None });
     } else {
       let (f, fk, _, _) = num_field(r);
       let iv4 = *pick(r, &[4i64, 8, 2, 6, 12, 1]);
-      sources.push(Src { terms: false, name: format!("k{i}"), field: f.to_string(), fk, iv4 });
+      sources.push(Src { terms: false, name: format!("k{i}"), field: f.to_string(), fk, iv4, iv_raw: None });
     }
   }
   A::Comp { sources, size, after: None, after_parts: vec![], subs }
@@ -395,7 +398,7 @@ pub fn render_agg(a: &A) -> Value {
     A::Comp { sources, size, after, subs, .. } => {
       let mut v = json!({"type": "composite", "size": size,
         "sources": sources.iter().map(|s| if s.terms { json!({"type": "terms", "name": s.name, "field": s.field}) }
-                                          else { json!({"type": "histogram", "name": s.name, "field": s.field, "interval": q4f(s.iv4)}) }).collect::<Vec<_>>()});
+                                          else { json!({"type": "histogram", "name": s.name, "field": s.field, "interval": s.iv_raw.unwrap_or(q4f(s.iv4))}) }).collect::<Vec<_>>()});
       if let Some(a) = after {
         v["after"] = a.clone();
       }
@@ -520,6 +523,8 @@ fn comp_key(sources: &[Src], key: &Value) -> Vec<Value> {
           Some(x) => kstr(x),
           None => kstr(&format!("notstr:{v}")),
         }
+      } else if s.iv_raw.is_some() {
+        kstr(&v.to_string())
       } else {
         knum(&v)
       }
@@ -862,7 +867,7 @@ fn mode_layouts(r: &mut StdRng, scn: usize, n_req: usize, out: &mut Vec<Value>) 
   // source (many keys of mixed magnitude, match_all) - bucket limits apply to the merged, typed order
   let mut reqs = reqs;
   for (f, fk) in [("rank", "i64"), ("price", "f64")] {
-    let src = Src { terms: false, name: "k0".into(), field: f.to_string(), fk, iv4: *pick(r, &[4i64, 8, 20]) };
+    let src = Src { terms: false, name: "k0".into(), field: f.to_string(), fk, iv4: *pick(r, &[4i64, 8, 20]), iv_raw: None };
     let comp = A::Comp { sources: vec![src], size: r.gen_range(1..=3), after: None, after_parts: vec![], subs: vec![] };
     reqs.push(Req { q: Q::All, filt: None, aggs: vec![("c0".to_string(), comp)], exec: "bm25", limit: 1 });
   }
@@ -1059,7 +1064,22 @@ fn mode_walks(r: &mut StdRng, scn: usize, n_req: usize, out: &mut Vec<Value>) ->
     };
     let filt = if chance(r, 1, 4) { Some(gen_filter(r, 1, false, "")) } else { None };
     let subs: Subs = if chance(r, 1, 3) { vec![("s0".to_string(), gen_metric(r, &cfg))] } else { vec![] };
-    let comp = gen_comp(r, 1000, subs);
+    let mut comp = gen_comp(r, 1000, subs);
+    // every fourth walk: a histogram source whose interval is not exact in binary (bucket keys
+    // like 2.0999999999999996 come back as `after`)
+    let mut relonly = false;
+    if chance(r, 1, 4) {
+      if let A::Comp { sources, .. } = &mut comp {
+        let raw = *pick(r, &[0.7f64, 0.1, 0.3, 1.1]);
+        if let Some(s0) = sources.iter_mut().find(|s| !s.terms) {
+          s0.iv_raw = Some(raw);
+          relonly = true;
+        } else if let Some(s0) = sources.first_mut() {
+          *s0 = Src { terms: false, name: s0.name.clone(), field: "price".into(), fk: "f64", iv4: 4, iv_raw: Some(raw) };
+          relonly = true;
+        }
+      }
+    }
     let psize = r.gen_range(1..=5);
     let exec = *pick(r, &["bm25", "wand", "bmw"]);
     let one = |a: &A| -> Subs { vec![("c".to_string(), a.clone())] };
@@ -1088,7 +1108,7 @@ fn mode_walks(r: &mut StdRng, scn: usize, n_req: usize, out: &mut Vec<Value>) ->
     }
     let filters: Vec<Value> = filt.iter().map(|f| abstract_filter(f, &mut dict)).collect();
     events.push(json!({
-      "ev": "agg", "check": "walk", "prop": "C30", "nseg": reader.segments.len(), "psize": psize, "guard": guard,
+      "ev": "agg", "check": "walk", "prop": "C30", "nseg": reader.segments.len(), "psize": psize, "guard": guard, "relonly": relonly,
       "q": abstract_query(&b.schema, &q, &default_fields(), true, 1.0, &mut dict),
       "filters": filters, "aggs": abstract_aggs(&one(&comp), &mut dict), "unpaged": unpaged, "pages": pages,
       "req": unpaged_req.to_string(),
